@@ -19,7 +19,7 @@ RULE = ('pairs of magnitudes with/without absolute uncertainty, of either sign, 
         'operand; distinct by (op, signs, shapes, which side is uncertain, units)')
 SHARDS = {'quick': 16, 'thorough': 16}
 MIN_NONTRIVIAL = {'quick': 5000, 'thorough': 120000}
-REQUIRED_CLASSES = ['decimal-exact-plus-uncertain-float', 'relative-uncertainty-input', 'relative-uncertainty-on-negative-value', 'relative-uncertainty-ctor', 'relative-uncertainty-setter', 'relative-uncertainty-through-magnitude-object', 'cancelling-units-collapse', 'quantity-ops-same-dimension-other-unit', 'mag:add', 'mag:sub', 'mag:mul', 'mag:truediv', 'mag:pow', 'mag:neg', 'exact-partner-negative', 'exact-partner-left',
+REQUIRED_CLASSES = ['both-operands-one-object', 'decimal-exact-plus-uncertain-float', 'relative-uncertainty-input', 'relative-uncertainty-on-negative-value', 'relative-uncertainty-ctor', 'relative-uncertainty-setter', 'relative-uncertainty-through-magnitude-object', 'cancelling-units-collapse', 'quantity-ops-same-dimension-other-unit', 'mag:add', 'mag:sub', 'mag:mul', 'mag:truediv', 'mag:pow', 'mag:neg', 'exact-partner-negative', 'exact-partner-left',
                     'both-uncertain-positive', 'both-exact', 'array', 'scalar', 'negative-exponent', 'quantity-conversion',
                     'quantity-mixed-unit-sum', 'quantity-ops', 'repo-tests-under-contracts', 'value-query-then-reuse', 'sum-evaluated-twice']
 REQUIRED_MONITORS = ['decimal_sum_compares', 'contract:Magnitude._add', 'contract:Magnitude._sub', 'contract:Magnitude._mul', 'contract:Magnitude._truediv',
@@ -99,7 +99,7 @@ def cases(rng, tier, shard, nshards, ctx):
             if op == 'neg':
                 yield dict(t='mag', op=op, a=[va, ea])
                 continue
-            form = rng.choice(['MM', 'MM', 'Mn', 'nM'])
+            form = rng.choice(['MM', 'MM', 'Mn', 'nM', 'self'])      # 'self': both operands are ONE object (a*a, a+a, a/a)
             vb = gv(rng, arr and rng.random() < 0.7, pos)
             eb = ge(rng, vb) if (form == 'MM' and rng.random() < 0.6) else None
             yield dict(t='mag', op=op, a=[va, ea], b=[vb, eb], form=form)
@@ -134,7 +134,7 @@ def cases(rng, tier, shard, nshards, ctx):
             fam = rng.choice(list(FAM)); fam2 = fam if rng.random() < 0.5 else rng.choice(list(FAM))
             xa, xb = gv(rng, arr), gv(rng, False)
             yield dict(t='qops', ua=rng.choice(FAM[fam]), ub=rng.choice(FAM[fam2]), xa=xa, xb=xb, ea=ge(rng, xa), eb=ge(rng, xb) if rng.random() < 0.5 else None,
-                       op=rng.choice(['mul', 'truediv', 'pow', 'neg', 'rmul', 'rtruediv', 'mulnum', 'divnum']), k=rng.choice([-3.0, 2.0, -0.5, 4]))
+                       op=rng.choice(['mul', 'truediv', 'pow', 'neg', 'rmul', 'rtruediv', 'mulnum', 'divnum']), k=rng.choice([-3.0, 2.0, -0.5, 4]), selfop=(not arr and rng.random() < 0.2))
 
 
 def classify(rec, case):
@@ -204,7 +204,13 @@ def _run(case, ctx):
                     classes.append('both-uncertain-positive')
                 import operator
                 f = {'add': operator.add, 'sub': operator.sub, 'mul': operator.mul, 'truediv': operator.truediv}[op]
-                if form == 'MM':
+                if form == 'self':
+                    classes.append('both-operands-one-object')
+                    uncertain = ea is not None
+                    if ea is not None and all(x > 0 for x in (va if isinstance(va, list) else [va])):
+                        classes.append('both-uncertain-positive')
+                    res = f(a, a)
+                elif form == 'MM':
                     b = mk(vb, eb)
                     if eb is None and any(x < 0 for x in (vb if isinstance(vb, list) else [vb])) and ea is not None:
                         classes.append('exact-partner-negative')
@@ -275,6 +281,10 @@ def _run(case, ctx):
             op, k = case['op'], case['k']
             if k < 0 and op in ('rmul', 'mulnum', 'divnum'):
                 classes.append('exact-partner-negative')
+            if case.get('selfop') and op in ('mul', 'truediv'):
+                classes.append('both-operands-one-object')
+                b = a
+                case = dict(case, ub=case['ua'], xb=case['xa'] if not isinstance(case['xa'], list) else case['xa'][0], eb=case['ea'])
             res = {'mul': lambda: a * b, 'truediv': lambda: a / b, 'pow': lambda: a ** int(k), 'neg': lambda: -a, 'rmul': lambda: k * a,
                    'rtruediv': lambda: k / a, 'mulnum': lambda: a * k, 'divnum': lambda: a / k}[op]()
             if op == 'pow' and k < 0:
